@@ -11,6 +11,7 @@
 #include <spawn.h>
 #include <sys/wait.h>
 #include <fcntl.h>
+#include <sys/resource.h>
 
 using namespace vf;
 extern "C" const vapi dflt_api;
@@ -39,6 +40,7 @@ static CliOut run_cli(const Bytes &file, const Bytes *second = nullptr) {
     char *argv[] = {(char *) CLI.c_str(), (char *) in.c_str(), second ? (char *) in2.c_str() : nullptr, nullptr};
     pid_t pid; CliOut r{0, false, 0, "", ""};
     if (posix_spawn(&pid, CLI.c_str(), &fa, nullptr, argv, envp.data()) != 0) { r.status = -1; r.err = "spawn failed"; return r; }
+    { struct rlimit rl; rl.rlim_cur = 60; rl.rlim_max = 90; prlimit(pid, RLIMIT_CPU, &rl, nullptr); }   // "terminates normally": a tool that spins is stopped by SIGXCPU after 60 s of its own CPU time
     int st = 0; waitpid(pid, &st, 0); posix_spawn_file_actions_destroy(&fa);
     r.signaled = WIFSIGNALED(st); r.sig = r.signaled ? WTERMSIG(st) : 0; r.status = WIFEXITED(st) ? WEXITSTATUS(st) : -1;
     r.out = slurp(so); r.err = slurp(se);
@@ -77,6 +79,7 @@ static std::optional<Failure> check_file(Run &R, const Bytes &file) {
     if (nontriv) R.nontrivial(hashs(file));
     std::string desc = std::to_string(ml.size()) + "-line file (" + std::to_string(file.size()) + " bytes)";
     auto first_bad_line = [&]() -> std::string { for (auto &m : ml) if (!m.comment && (m.trimmed.empty() || m.raw.size() > 1000 || !ref::utf8_ok(m.raw) || m.has_nul)) return " e.g. line '" + show(m.raw.substr(0, 60)) + "' (" + std::to_string(m.raw.size()) + " bytes)"; return ""; };
+    if (r.signaled && r.sig == SIGXCPU) return Failure{"cli-hang", g_case, "eav did not terminate: stopped after 60 s of CPU time on a " + desc + first_bad_line()};
     if (r.signaled) return Failure{r.sig == 6 ? "cli-abort" : "cli-signal", g_case, "eav killed by signal " + std::to_string(r.sig) + " on a " + desc + first_bad_line() + "; stderr: " + r.err.substr(0, 400)};
     if (r.err.find("Sanitizer") != std::string::npos || r.err.find("runtime error:") != std::string::npos || r.err.find("Assertion") != std::string::npos)
         return Failure{"cli-memory-error", g_case, "eav reports a memory error / undefined behaviour on a " + desc + first_bad_line() + "; stderr: " + r.err.substr(0, 500)};
